@@ -132,6 +132,7 @@ def main(argv=None):
 
     known = load_known_findings().get(prop, {})
     results = []
+    timed_out = 0
     try:
         # -------------------------------------------------------------- regression tier
         from harness.core import Acc
@@ -160,10 +161,28 @@ def main(argv=None):
             for job in plan:
                 results.append(_run_job((mod.__name__, job)))
         else:
+            # Watchdog: a run that exceeds its wall-clock budget (a library change that makes some call loop or blow up
+            # exponentially) is cut off.  Violations found until then are still reported; otherwise the run is inconclusive
+            # (exit 2) - a time budget is never a verdict about the property.
+            budget = float(os.environ.get("VERIF_MAX_WALL", "1500" if args.tier == "quick" else "21600"))
             ctx = multiprocessing.get_context("fork")
-            with ctx.Pool(min(args.workers, len(plan))) as pool:
-                for d in pool.imap_unordered(_run_job, [(mod.__name__, j) for j in plan], chunksize=1):
+            pool = ctx.Pool(min(args.workers, len(plan)))
+            try:
+                it = pool.imap_unordered(_run_job, [(mod.__name__, j) for j in plan], chunksize=1)
+                pending = len(plan)
+                while pending:
+                    left = budget - (time.time() - t0)
+                    if left <= 0:
+                        raise multiprocessing.TimeoutError()
+                    d = it.next(timeout=left)
                     results.append(d)
+                    pending -= 1
+                pool.close()
+            except multiprocessing.TimeoutError:
+                timed_out = pending
+                pool.terminate()
+            finally:
+                pool.join()
     except Exception:
         traceback.print_exc()
         print("HARNESS-ERROR property=%s (run)" % prop)
@@ -268,12 +287,14 @@ def main(argv=None):
     for name, s in sorted(subs.items()):
         print("  %-28s evals=%-8d nontrivial=%-8d exhaustive=%-5s %6.1fs" %
               (name, s["evaluations"], s["distinct_nontrivial"], s["exhaustive"], s["wall_s"]))
+    if timed_out:
+        print("TIME-BUDGET property=%s: %d job(s) cut off after %.0fs (VERIF_MAX_WALL); inconclusive for them" % (prop, timed_out, wall))
     if new_violations:
         for kind, detail, path, count in new_violations:
             print("violation kind=%s count=%d %s" % (kind, count, detail[:400].replace("\n", " ")))
             print("VIOLATION property=%s replay=%s" % (prop, path))
         return 1
-    return 0
+    return 2 if timed_out else 0
 
 
 if __name__ == "__main__":
